@@ -86,9 +86,10 @@ def check_pairs(ctx):
                 seen.add(key)
                 c06.classify_sized(ctx, ci, fi, 'callable' if kind == 'expression' else kind)
             for kind, regex in (('bytes-marker', False), ('regex-marker', True)):
-                t = sel.get(kind)
-                if t is not None:
-                    c06.classify_marker(ctx, ci, repo.method(ci, t), regex)
+                targets = [(sel[kind], ())] if sel.get(kind) is not None else sel.get('__multi__', {}).get(kind, [])
+                for t, facts in targets:
+                    if repo.method(ci, t) is not None:
+                        c06.classify_marker(ctx, ci, repo.method(ci, t), regex, facts)
             c06.check_pack_and_ctor(ctx)
         elif name == 'Bits':
             done.add(name)
